@@ -121,13 +121,9 @@ def check_serial(cfg, cert, rep):
                     masked = True
         base = core(mv.base)
         if isinstance(base, IndexV):
-            rng = core(base.idx)
-            if isinstance(rng, StructV):
-                lo = cert.I.concrete(rng.fields.get("start")) if "start" in rng.fields else None
-                hi = cert.I.concrete(rng.fields.get("end")) if "end" in rng.fields else None
-                incl = "Inclusive" in (rng.adt or "")
-                if lo == 0 and isinstance(hi, int) and (hi + (1 if incl else 0)) <= 20 and hi >= 1:
-                    sliced = True
+            rb = common.range_bounds(cert.I, base.idx)
+            if rb and rb[0] == 0 and 1 <= rb[1] <= 20:
+                sliced = True
             dg = core(base.base)
             rep.ob("C05.serial", key + "|from-key-digest", isinstance(dg, CallV) and dg.callee.endswith("digest::digest") and places(dg) == {"pub_key"}, "automatic serial is a digest of the subject public key", found=dg.r()[:160])
     rep.ob("C05.serial", key + "|at-most-20-octets", sliced, "at most 20 octets are taken (RFC 5280 4.1.2.2)", found=detail[:200], sp=node.get("sp"))
